@@ -47,12 +47,15 @@ def run_case(case):
     if pre:
         from vt import preempt as PRE
         sim.trace_hook = PRE.random_tracer(sim, case['seed'] ^ 0xC11C11, p=0.03, holds=(0.0002, 0.001, 0.002), counter=holds_n, max_holds=60, log=hold_log)
+    prng0 = random.Random(case['seed'] ^ 0xADD0)
     A = W.stack('A')
     sim.trace_hook = None
     B = W.stack('B')
     Cn = W.stack('C')
-    a_addrs = rng.sample(range(0, 200), 2)
+    a_addrs = rng.sample(range(1, 200), 2)
     b_addr, c_addr = rng.sample(range(200, 254), 2)
+    if prng0.random() < 0.2:
+        b_addr = 0                    # destination address 0 is a legal (and falsy) address
     nsend = rng.choice([1, 1, 2])
     senders = [W.ca(A, a_addrs[i], identity_number=10 + i) for i in range(nsend)]
     cb_ = W.ca(B, b_addr, identity_number=2)
